@@ -4,6 +4,7 @@ import (
 	"errors"
 	"io"
 	"net"
+	"os"
 	"strings"
 	"time"
 
@@ -12,6 +13,8 @@ import (
 
 func init() {
 	zzHarnesses["zzH_C16_http"] = zzH_C16_http
+	zzHarnesses["zzH_C16_start"] = zzH_C16_start
+	zzHarnesses["zzH_C16_addr"] = zzH_C16_addr
 }
 
 // zzM_parseSingleActionList replaces parseSingleActionList inside the engine (action parsing is
@@ -31,6 +34,7 @@ type zzConn struct {
 	data     []byte
 	pos      int
 	maxChunk int
+	written  []byte
 }
 
 func (c *zzConn) Read(p []byte) (int, error) {
@@ -39,7 +43,7 @@ func (c *zzConn) Read(p []byte) (int, error) {
 		return 0, io.EOF
 	}
 	n := rest
-	if zzv.Bool() {
+	if c.maxChunk > 0 && zzv.Bool() {
 		n = 1 + zzv.Below(c.maxChunk)
 		if n > rest {
 			n = rest
@@ -52,7 +56,10 @@ func (c *zzConn) Read(p []byte) (int, error) {
 	c.pos += n
 	return n, nil
 }
-func (c *zzConn) Write(p []byte) (int, error)        { return len(p), nil }
+func (c *zzConn) Write(p []byte) (int, error) {
+	c.written = append(c.written, p...)
+	return len(p), nil
+}
 func (c *zzConn) Close() error                       { return nil }
 func (c *zzConn) LocalAddr() net.Addr                { return nil }
 func (c *zzConn) RemoteAddr() net.Addr               { return nil }
@@ -153,4 +160,160 @@ func zzH_C16_http() {
 	if method == 2 && authorised && complete && clenValid && clen >= 1 && len(body) < clen {
 		zzv.Assert("incomplete-body-rejected", strings.HasPrefix(resp, "HTTP/1.1 400") && delivered == 0)
 	}
+}
+
+
+// --- startHttpServer -------------------------------------------------------------------------
+
+// In the engine net.Listen is replaced by zzMX_net_Listen: the listener hands out one scripted
+// connection and then reports that it is closed, and the accept loop (a goroutine in the real
+// code) runs inline. Natively the real net.Listen binds a loopback port and the harness talks to
+// it over TCP.
+type zzAddr string
+
+func (a zzAddr) Network() string { return "tcp" }
+func (a zzAddr) String() string  { return string(a) }
+
+type zzListener struct {
+	conn     *zzConn
+	accepted int
+}
+
+func (l *zzListener) Accept() (net.Conn, error) {
+	l.accepted++
+	if l.accepted == 1 {
+		return l.conn, nil
+	}
+	return nil, net.ErrClosed
+}
+func (l *zzListener) Close() error   { return nil }
+func (l *zzListener) Addr() net.Addr { return zzAddr("127.0.0.1:6266") }
+
+var zzTheListener *zzListener
+var zzListenCalls int
+
+func zzMX_net_Listen(network, address string) (net.Listener, error) {
+	zzListenCalls++
+	return zzTheListener, nil
+}
+
+// zzExchange: the answer to the request (modelled listener: what the accept loop wrote to the
+// scripted connection; real listener: over TCP).
+func zzExchange(l net.Listener, req string) string {
+	if m, ok := l.(*zzListener); ok {
+		return string(m.conn.written)
+	}
+	c, err := net.Dial("tcp", l.Addr().String())
+	if err != nil {
+		return "dial: " + err.Error()
+	}
+	defer c.Close()
+	c.SetDeadline(time.Now().Add(5 * time.Second))
+	c.Write([]byte(req))
+	out, _ := io.ReadAll(c)
+	return string(out)
+}
+
+// H16.start: a non-local listener refuses to start without a key, and the key the server enforces
+// is exactly the configured one.
+func zzH_C16_start() {
+	key := zzv.CfgStr("env:FZF_API_KEY")
+	os.Setenv("FZF_API_KEY", key)
+	host := []string{"localhost", "127.0.0.1", "0.0.0.0", ""}[zzv.Choose(0, 3)]
+	local := host == "localhost" || host == "127.0.0.1"
+	ch := make(chan []*action, 4)
+	handlerCalls := 0
+	sent, hasKey := "", true
+	switch zzv.Choose(0, 3) {
+	case 0:
+		hasKey = false
+	case 1:
+		sent = key
+	case 2:
+		sent = strings.TrimSpace(key)
+	default:
+		sent = "k1x"
+	}
+	req := "POST / HTTP/1.1\r\n"
+	if hasKey {
+		req += "X-API-Key: " + sent + "\r\n"
+	}
+	req += "Content-Length: 2\r\n\r\nup"
+	zzTheListener = &zzListener{conn: &zzConn{data: []byte(req)}} // delivered in one piece, as one TCP segment is
+	zzListenCalls = 0
+	l, port, err := startHttpServer(listenAddress{host, 0}, ch, func(getParams) string { handlerCalls++; return "{}" })
+	zzv.Reach("started")
+	if !local && len(key) == 0 {
+		zzv.Assert("remote-listener-refused-without-key", err != nil && l == nil && zzListenCalls == 0)
+		return
+	}
+	zzv.Assert("listener-starts", err == nil && l != nil && port > 0)
+	if err != nil || l == nil {
+		return
+	}
+	resp := zzExchange(l, req)
+	l.Close()
+	delivered := len(ch)
+	zzv.Observe("delivered", delivered)
+	zzv.Assert("well-formed-answer", strings.HasPrefix(resp, "HTTP/1.1 "))
+	// header values are compared without surrounding blanks, the configured key is taken as it is
+	authorised := len(key) == 0 || hasKey && strings.TrimSpace(sent) == key
+	if !authorised {
+		zzv.Assert("no-action-without-key", delivered == 0 && strings.HasPrefix(resp, "HTTP/1.1 401"))
+	} else {
+		zzv.Assert("action-accepted-with-the-key", delivered == 1 && strings.HasPrefix(resp, "HTTP/1.1 200"))
+	}
+	zzv.Assert("post-reveals-no-state", handlerCalls == 0)
+}
+
+
+// H16.addr: --listen address parsing: [HOST:]PORT, port 0..65535, host defaults to localhost.
+func zzH_C16_addr() {
+	alpha := []byte{'1', '6', '9', '-', ':', 'h', '+'}
+	n := zzv.Choose(0, zzv.CfgInt("nmax"))
+	b := make([]byte, n)
+	for i := range b {
+		b[i] = alpha[zzv.Below(len(alpha))]
+	}
+	addr, err := parseListenAddress(string(b))
+	zzv.Reach("parsed")
+	// reference
+	colons, first := 0, -1
+	for i, c := range b {
+		if c == ':' {
+			colons++
+			if first < 0 {
+				first = i
+			}
+		}
+	}
+	host, ps := "localhost", b
+	if colons == 1 {
+		if first > 0 {
+			host = string(b[:first])
+		}
+		ps = b[first+1:]
+	}
+	valid := colons <= 1 && len(ps) > 0
+	port, neg := 0, false
+	for i, c := range ps {
+		switch {
+		case i == 0 && (c == '-' || c == '+') && len(ps) > 1:
+			neg = c == '-'
+		case c >= '0' && c <= '9':
+			port = port*10 + int(c-'0')
+		default:
+			valid = false
+		}
+	}
+	if neg && port > 0 || port > 65535 {
+		valid = false
+	}
+	if !valid {
+		zzv.Assert("invalid-listen-address-rejected", err != nil)
+		return
+	}
+	zzv.Assert("valid-listen-address-accepted", err == nil)
+	zzv.Assert("listen-address-as-written", addr.host == host && addr.port == port)
+	zzv.Assert("only-loopback-names-are-local", addr.IsLocal() == (host == "localhost" || host == "127.0.0.1"))
 }
